@@ -8,7 +8,7 @@ from ..interp import cval, has_const
 from ..source import norm_text
 from .common import calls_in, walk_no_nested
 from .formula import check_degree, check_label, label_obligations, match_mono, no_scale_dependent_ops
-from .geo import all_geos, geo_text, kind_errors, uniq_events
+from .geo import all_geos, geo_text, kind_errors, under, uniq_events
 
 TM = 'gemdat.metrics.TrajectoryMetrics'
 TMS = 'gemdat.metrics.TrajectoryMetricsStd'
@@ -50,7 +50,7 @@ def check(ctx):
     for name, (deg, form) in EXPECT.items():
         fi = ctx.fn(f'{TM}.{name}')
         it = ctx.entry(fi.qualname)
-        scope = lambda f: f.qualname.startswith(TM + '.') or f.qualname in helpers
+        scope = scope_of(helpers)
         nbad = no_scale_dependent_ops(ctx, 'R1', it, scope)
         nbad += kind_errors(ctx, 'R1', it, scope)
         res = it.result
@@ -63,15 +63,29 @@ def check(ctx):
             if form is not None and ok:
                 ok2, msg2 = match_mono(m, form[0], form[1])
                 ctx.ob('R1', fi, tag + ' formula', ok2, msg2)
-        label_obligations(ctx, 'R2', it, lambda f, q=fi.qualname: f.qualname == q)
+        label_obligations(ctx, 'R2', it, under(fi.qualname))
     check_com(ctx)
     check_std(ctx)
+
+
+def scope_of(helpers):
+    """Events raised in a TrajectoryMetrics method, in one of the trajectory helpers it relies on, or in a private helper of those."""
+    from .geo import _helper_like
+
+    def f(e):
+        c = e['ctx']
+        for i in range(len(c) - 1, -1, -1):
+            if c[i].startswith(TM + '.') or c[i] in helpers:
+                return all(_helper_like(q) for q in c[i + 1:])
+        return False
+    f.wants_event = True
+    return f
 
 
 def check_com(ctx):
     fi = ctx.fn(f'{TRAJ}.center_of_mass')
     it = ctx.entry(fi.qualname)
-    reds = [e for e in uniq_events(it, {'reduce'}, lambda f: f.qualname == fi.qualname)]
+    reds = [e for e in uniq_events(it, {'reduce'}, under(fi.qualname))]
     if not reds:
         ctx.ob('R3', fi, 'centre of mass', None, 'no average over atoms found')
         return
